@@ -253,7 +253,16 @@ def log_kwargs(c, work):
     return kw
 
 
-def plain_fit_digest(E, data, c, n, tmp):
+def sampler_kwargs(win):
+    """settings under which the adaptation of the samplers' proposal scales fires every `win` iterations (default window: 25, i.e.
+    never inside a short fit): what a logging action reads between two adaptations must not be what the next adaptation uses"""
+    if not win:
+        return {}
+    common = {"acceptation_history_length": int(win), "mean_acceptation_rate_target_bounds": [0.2, 0.4], "adaptive_std_factor": 0.1}
+    return {"sampler_ind_params": dict(common), "sampler_pop_params": {"random_order_dimension": True, **common}}
+
+
+def plain_fit_digest(E, data, c, n, tmp, win=None):
     """unrecorded seeded fit with logging request c (None = no logging), n iterations: digest or None when it raises"""
     work = tempfile.mkdtemp(prefix="srch_", dir=tmp)
     cwd = os.getcwd()
@@ -262,7 +271,8 @@ def plain_fit_digest(E, data, c, n, tmp):
         m = E.model_factory("logistic", dimension=3, source_dimension=1)
         try:
             with core.quiet():
-                m.fit(data, "mcmc_saem", n_iter=n, n_burn_in_iter=2, seed=3, progress_bar=False, **(log_kwargs(c, work) if c else {}))
+                m.fit(data, "mcmc_saem", n_iter=n, n_burn_in_iter=2, seed=3, progress_bar=False, **(log_kwargs(c, work) if c else {}),
+                      **sampler_kwargs(win))
         except Exception:  # noqa
             return None
         return (params_digest(m), full_digest(m))
@@ -276,8 +286,8 @@ def logging_search(E, data, c, tmp):
     only shows in the next one)"""
     def search(answer, rec):
         for n in (N_ITER + 1, 2 * N_ITER + 3, 3 * N_ITER + 4):
-            base = plain_fit_digest(E, data, None, n, tmp)
-            got = plain_fit_digest(E, data, c, n, tmp)
+            base = plain_fit_digest(E, data, None, n, tmp, c.get("win"))
+            got = plain_fit_digest(E, data, c, n, tmp, c.get("win"))
             if base is not None and got is not None and got != base:
                 return ({**log_case_json(c), "n": n},
                         f"fit of {n} iterations: final parameters / latent values differ bitwise from the run without logging")
@@ -295,20 +305,21 @@ def run_logging_case(chk, E, c, data, baselines, tmp, book=None):
     cwd = os.getcwd()
     os.chdir(work)            # a save periodicity without path writes to ./_outputs
     n_iter = n_of(c)
-    baseline = baselines(n_iter)
+    win = c.get("win")
+    baseline = baselines(n_iter, win)
     try:
         kw = log_kwargs(c, work)
         m = E.model_factory("logistic", dimension=3, source_dimension=1)
         with Recorder(E) as rec, D.DrawRecorder(3) as dr:
             try:
                 with core.quiet():
-                    m.fit(data, "mcmc_saem", n_iter=n_iter, n_burn_in_iter=2, seed=3, progress_bar=False, **kw)
+                    m.fit(data, "mcmc_saem", n_iter=n_iter, n_burn_in_iter=2, seed=3, progress_bar=False, **kw, **sampler_kwargs(win))
                 err = None
             except Exception as e:  # noqa
                 err = e
         cj = log_case_json(c)
         if err is None and book is not None:
-            book.add(f"fit logistic (logging grid) n_iter={n_iter}", "logging " + " ".join(f"{k}={c[k]}" for k in ("path", "print", "save", "plot", "pp")),
+            book.add(f"fit logistic (logging grid) n_iter={n_iter} window={win or 25}", "logging " + " ".join(f"{k}={c[k]}" for k in ("path", "print", "save", "plot", "pp")),
                      cj, dr, logging_search(E, data, c, tmp))
         # ---- the property's own predicate -------------------------------------------------------------
         def eff(v):
@@ -398,15 +409,21 @@ def logging_cases(chk):
         # console logging across an adaptation window of the samplers (every 25 iterations): what printing reads must not be
         # what the next adaptation uses
         dict(path=True, print=5, save=None, plot=None, pp=None, ow=False, dne=False, n=27),
+        # … and the same inside the short fits: adaptation every 2 / 3 iterations (the baseline uses the very same settings)
+        dict(path=True, print=1, save=None, plot=None, pp=None, ow=False, dne=False, win=3),
+        dict(path=True, print=2, save=1, plot=None, pp=1, ow=False, dne=False, win=3),
+        dict(path=True, print=1, save=1, plot=2, pp=2, ow=False, dne=False, win=2),
     ]
     if chk.tier == "quick":
         cheap = [c for c in full if plots(c) == 0]
         costly = [c for c in full if plots(c) > 0]
         sel = rng.sample(cheap, 34) + rng.sample(costly, 5)
+        sel = [dict(c, win=3) if i % 3 == 0 else c for i, c in enumerate(sel)]
     else:
         cheap = [c for c in full if plots(c) == 0]
         costly = [c for c in full if plots(c) > 0]
         sel = rng.sample(cheap, 330) + rng.sample(costly, 50)
+        sel = [dict(c, win=(2 if i % 6 == 0 else 3)) if i % 3 == 0 else c for i, c in enumerate(sel)]
     return extra + sel
 
 
@@ -415,30 +432,33 @@ def make_baselines(chk, E, data, tmp, book=None):
     with), then once more with the draw recorder on (its program is the reference of the subject; same digests required)"""
     cache = {}
 
-    def get(n):
-        if n in cache:
-            return cache[n]
+    def get(n, win=None):
+        key = (n, win)
+        if key in cache:
+            return cache[key]
         work = tempfile.mkdtemp(prefix="base_", dir=tmp)
         cwd = os.getcwd()
         os.chdir(work)
         try:
             m = E.model_factory("logistic", dimension=3, source_dimension=1)
             with core.quiet():
-                m.fit(data, "mcmc_saem", n_iter=n, n_burn_in_iter=2, seed=3, progress_bar=False)
-            cache[n] = {"params": params_digest(m), "full": full_digest(m)}
+                m.fit(data, "mcmc_saem", n_iter=n, n_burn_in_iter=2, seed=3, progress_bar=False, **sampler_kwargs(win))
+            cache[key] = {"params": params_digest(m), "full": full_digest(m)}
             m2 = E.model_factory("logistic", dimension=3, source_dimension=1)
             with D.DrawRecorder(3) as dr:
                 with core.quiet():
-                    m2.fit(data, "mcmc_saem", n_iter=n, n_burn_in_iter=2, seed=3, progress_bar=False)
+                    m2.fit(data, "mcmc_saem", n_iter=n, n_burn_in_iter=2, seed=3, progress_bar=False, **sampler_kwargs(win))
             cj = {"part": "logging", "path": False, "print": None, "save": None, "plot": None, "pp": None, "ow": False, "dne": False, "n": n}
-            if params_digest(m2) != cache[n]["params"] or full_digest(m2) != cache[n]["full"]:
+            if win:
+                cj["win"] = win
+            if params_digest(m2) != cache[key]["params"] or full_digest(m2) != cache[key]["full"]:
                 chk.impl_failure(cj, "the same seeded fit without logging, repeated (this time with the draw recorder on), differs bitwise from the first run")
             if book is not None:
-                book.add(f"fit logistic (logging grid) n_iter={n}", "no logging", cj, dr, None)
+                book.add(f"fit logistic (logging grid) n_iter={n} window={win or 25}", "no logging", cj, dr, None)
         finally:
             os.chdir(cwd)
             shutil.rmtree(work, ignore_errors=True)
-        return cache[n]
+        return cache[key]
     return get
 
 
@@ -449,6 +469,8 @@ def clean_case(c):
     d = {k: c[k] for k in CASE_KEYS}
     if c.get("n"):
         d["n"] = c["n"]
+    if c.get("win"):
+        d["win"] = c["win"]
     return d
 
 
@@ -466,7 +488,7 @@ def part_a(chk, E, tmp, book=None):
         chk.case(("log", tuple(sorted(c.items()))), nontrivial=nontriv,
                  sample=log_case_json(c) if len(chk.samples) < 3 and c["plot"] else None,
                  tags={"part": "logging", "outcome": ans.split(" ")[0].split("@")[0], "path": c["path"],
-                       "has_plot": c["plot"] is not None})
+                       "has_plot": c["plot"] is not None, "adaptation_window": c.get("win") or 25})
     out = chk.model([lean_line(c) for c in cases])
     for c, a, b in zip(cases, answers, out):
         if a != b:
@@ -769,7 +791,9 @@ def run(chk: core.Check):
     E = A.env()
     chk.rule = ("logging: one case = one real seeded fit (logistic, 3 features, 1 source, 6 iterations) with one logging request "
                 "(periodicities in {None,1,2,3,5} for print/save/plot/patient-plot x path, sampled from the 1250-point grid, plus ignored "
-                "values 0/-1, non-empty folder with/without overwrite); non-trivial when any logging option is set. history: one case = "
+                "values 0/-1, non-empty folder with/without overwrite; a third of the cases — and their baselines — with the samplers' adaptation "
+                "window shortened from 25 to 2 / 3 iterations so that adaptations fire between logging actions; two 8-iteration and one "
+                "27-iteration fit); non-trivial when any logging option is set. history: one case = "
                 "one seeded run (fit / mean / mode / scipy personalisation / simulate) repeated after a given prior activity; non-trivial "
                 "when the activity is not a plain repeat. draw programs: every one of these runs except the reference runs is recorded "
                 "(draws_c11.py) and analysed by the driver (one `draws` line each).")
